@@ -47,6 +47,13 @@ class EngineProp(Prop):
                 script.append(group)
             if case['profile'] == 'loss' and not H.closed_seen:
                 tail = [[rng.choice([{'op': 'lost', 'mode': 'eof'}, {'op': 'lost', 'mode': 'error'}, {'op': 'close'}])]]
+                # the application's on_close may fail, or be suspended while the application closes the endpoint
+                r = rng.random()
+                if tail[0][0]['op'] == 'lost' and r < 0.2:
+                    tail[0][0]['on_close'] = 'raise'
+                elif tail[0][0]['op'] == 'lost' and r < 0.4:
+                    tail[0][0]['on_close'] = 'suspend'
+                    tail.append([{'op': 'close'}])
                 if rng.random() < 0.35:
                     # a one-way request handed to the library in the same loop iteration as the end of the connection
                     tail[0].insert(0, rng.choice([{'op': 'FNF', 'data': sh.fresh(1)}, {'op': 'MP', 'data': sh.fresh(1)}]))
